@@ -23,6 +23,7 @@ type histCfg struct {
 	Reopen     bool // event: clean shutdown (Session.Close) + restart
 	Crash      bool // event: crash + recovery (cost 1 against the crash bound)
 	FinalCrash bool // every fresh history ends with crash + double recovery + check
+	FinalReopen bool // every fresh history ends with clean shutdown + restart + check (pages re-read from disk)
 	Walk       bool // run the tree walker after every fresh event
 	OnlyWalk   bool // judge only the walker (and crashes/hangs of tree code); other oracles belong to other properties
 }
@@ -208,6 +209,23 @@ func histBody(cfgs []histCfg, crashBound int) lib.Body {
 				}
 			}
 			if c.Fresh() && cfg.Walk && !w.walk(fmt.Sprintf("after event %d", step+1)) {
+				return
+			}
+		}
+		if cfg.FinalReopen && c.Fresh() {
+			c.Logf("CLOSE + RESTART (end of history)")
+			rs := w.sess.RelationService
+			if err := guard(func() error { return w.sess.Close() }); err != nil {
+				w.failErr("close-failed", "Session.Close", err)
+				return
+			}
+			storage.VerifMarkClosed(rs)
+			w = w.recoverFrom(w.image(), false)
+			if c.Failed() {
+				return
+			}
+			c.Tag("final-reopen")
+			if !w.checkAll("after clean shutdown + restart") {
 				return
 			}
 		}
